@@ -51,7 +51,22 @@ static mut BIND_SRC_PRESENT: bool = true;
 #[derive(Clone, Copy, PartialEq, Eq, Debug)] pub enum Feature { TcpForward, UdpForward, UdpBind, TcpBind }
 #[derive(Clone, Copy, PartialEq, Eq, Debug)] pub struct TargetAddress(pub u8);
 #[derive(Clone, Copy, PartialEq, Eq, Debug)] pub struct SocketAddr(pub u8);
+/// a buffered stream: `.0 == 0` is the upstream being set up, `.0 == 9` the client's stream held by the context.
+/// Raw byte access exists so that an edit which moves bytes itself is decided (every raw write is logged) instead of
+/// being rejected by the compiler.
 pub struct IOBufStream(pub u8);
+static mut N_RAW_WRITES: u32 = 0;        // bytes put on a stream by the connector outside HttpRequest::write_to
+static mut CLIENT_READAHEAD: [u8; 2] = [0; 2];
+static mut CLIENT_READAHEAD_LEN: usize = 0;
+static mut CLIENT_STREAM: IOBufStream = IOBufStream(9);
+impl IOBufStream {
+    /// BufReader::buffer(): what was read ahead from the peer and not consumed yet (the client may pipeline data behind its handshake)
+    pub fn buffer(&self) -> &[u8] { unsafe { if self.0 == 9 { &CLIENT_READAHEAD[..CLIENT_READAHEAD_LEN] } else { &CLIENT_READAHEAD[..0] } } }
+    pub fn write_all(&mut self, b: &[u8]) -> std::future::Ready<Result<(), IoError>> { unsafe { if b.len() > 0 { N_RAW_WRITES += 1; } } std::future::ready(Ok(())) }
+    pub fn write(&mut self, b: &[u8]) -> std::future::Ready<Result<usize, IoError>> { unsafe { if b.len() > 0 { N_RAW_WRITES += 1; } } std::future::ready(Ok(b.len())) }
+    pub fn flush(&mut self) -> std::future::Ready<Result<(), IoError>> { std::future::ready(Ok(())) }
+}
+#[derive(Clone, Copy, Debug)] pub struct IoError(pub u8);
 pub struct FrameIO(pub u32);
 pub fn frames_from_stream(sid: u32, _s: IOBufStream) -> FrameIO { FrameIO(sid) }
 
@@ -98,6 +113,7 @@ impl Context {
     pub fn target(&self) -> TargetAddress { unsafe { TargetAddress(TARGET) } }
     pub fn feature(&self) -> Feature { unsafe { FEATURE } }
     pub fn extra(&self, _k: &str) -> Option<ExtraStr> { unsafe { if BIND_SRC_PRESENT { Some(ExtraStr(1)) } else { None } } }
+    pub fn borrow_client_stream(&mut self) -> Option<&mut IOBufStream> { unsafe { Some(&mut CLIENT_STREAM) } }
     pub fn set_server_stream(&mut self, _s: IOBufStream) -> &mut Self { unsafe { N_SET_STREAM += 1; } self }
     pub fn set_server_frames(&mut self, f: FrameIO) -> &mut Self { unsafe { N_SET_FRAMES += 1; FRAMES_SID = f.0; } self }
     pub fn set_local_addr(&mut self, _a: SocketAddr) -> &mut Self { self }
@@ -126,6 +142,7 @@ fn h11c_connect_all_paths() {
         let f: u8 = kani::any();
         FEATURE = match f % 4 { 0 => Feature::TcpForward, 1 => Feature::UdpForward, 2 => Feature::UdpBind, _ => Feature::TcpBind };
         WRITE_OK = kani::any(); RESP_OK = kani::any(); RESP_CODE = kani::any(); SID_PARSES = kani::any(); SID_VALUE = kani::any();
+        CLIENT_READAHEAD = kani::any(); CLIENT_READAHEAD_LEN = kani::any(); kani::assume(CLIENT_READAHEAD_LEN <= 2);
         BIND_SRC_PRESENT = true; // precondition of the UdpBind path: listeners set "udp-bind-source" before enqueueing (unwrap in the callee)
     }
     let inline: bool = kani::any();
@@ -147,6 +164,10 @@ fn h11c_connect_all_paths() {
             assert!(N_SET_STREAM == 0 && N_SET_FRAMES == 0);
         }
         if RESP_OK && WRITE_OK && (tcp || udp) && RESP_CODE != 200 { assert!(ret.is_err()); }
+        // C01: the connector puts nothing but its CONNECT request on the upstream stream -- whatever the client pipelined
+        // behind its own handshake stays in the client stream's read-ahead (copy_bidi's drain forwards it exactly once)
+        assert!(N_RAW_WRITES == 0, "the connector moved raw bytes itself");
+        kani::cover!(ret.is_ok() && tcp && CLIENT_READAHEAD_LEN == 2);
         kani::cover!(ret.is_ok() && tcp);
         kani::cover!(ret.is_ok() && udp && inline);
         kani::cover!(ret.is_ok() && udp && !inline);
